@@ -148,3 +148,41 @@ Proof.
   assert (E : (l =? 0) || (l =? 1) = true) by (destruct Hl; subst; reflexivity). rewrite E.
   unfold Finish. destruct (HasMoreData (c_sorter c)); reflexivity.
 Qed.
+
+(** CRYPTO frames carry no release callback (HandleCryptoFrame pushes with doneCb = nil), so the
+    crypto streams — and the manager's Drop — never hold or release a buffer *)
+Definition NoCb (c : cstream) : Prop := fired (c_sorter c) ++ FrameSorter.Spec.live (queue (c_sorter c)) = [].
+
+Lemma cstep_NoCb S c o c' : CInv S c -> cvalid o -> NoCb (cr_st c) -> cstep S c o = Some c' -> NoCb (cr_st c').
+Proof.
+  intros I Hv N H. pose proof (ci_inv _ _ I) as Iq. destruct o as [off n| |]; simpl in H.
+  - destruct Hv as (V1&V2). unfold HandleCryptoFrame in H. rewrite len_slice in H by lia.
+    destruct (Z.ltb_spec MaxCrypto (off + n)); [discriminate|].
+    destruct (c_finished (cr_st c)).
+    + destruct (c_highest (cr_st c) <? off + n); inversion H; subst; auto.
+    + destruct (Push (c_sorter (cr_st c)) (slice S off n) off None) as [q r] eqn:EP.
+      pose proof MaxCrypto_lt_MaxBC.
+      destruct (Push_post S _ _ _ _ _ _ Iq V1 V2 ltac:(lia) EP) as (_&Hok).
+      destruct r; try discriminate. inversion H; subst. destruct (Hok eq_refl) as (_&_&_&_&Hp&_).
+      unfold NoCb in *. simpl in *. rewrite N in Hp. apply Permutation.Permutation_nil. symmetry. exact Hp.
+  - unfold GetCryptoData in H. destruct (Pop (c_sorter (cr_st c))) as [[q [[off d] cb]] bug] eqn:EP.
+    destruct bug; [discriminate|]. inversion H; subst. unfold NoCb in *. simpl.
+    apply app_eq_nil in N. destruct N as (N1&N2).
+    unfold Pop in EP. destruct (qget (queue (c_sorter (cr_st c))) (readPos (c_sorter (cr_st c)))) as [en|] eqn:E;
+      inversion EP; subst; simpl; rewrite N1; simpl; auto.
+    pose proof (FrameSorter.ProofsLoops.live_qdel _ _ _ E) as Hl. rewrite N2 in Hl.
+    apply Permutation.Permutation_nil in Hl. apply app_eq_nil in Hl. tauto.
+  - unfold Finish in H. destruct (HasMoreData _); [discriminate|]. inversion H; subst. exact N.
+Qed.
+
+Theorem crypto_no_buffers S ops c : Forall cvalid ops -> csrun S crun_init ops = Some c ->
+  fired (c_sorter (cr_st c)) = [] /\ FrameSorter.Spec.live (queue (c_sorter (cr_st c))) = [].
+Proof.
+  intros Hv Hs.
+  assert (G : forall ops c0 c1, CInv S c0 -> NoCb (cr_st c0) -> Forall cvalid ops -> csrun S c0 ops = Some c1 -> NoCb (cr_st c1)).
+  { induction ops0 as [|o ops0 IH]; intros c0 c1 I N Hv0 Hs0; simpl in Hs0.
+    - inversion Hs0; subst; auto.
+    - inversion Hv0; subst. destruct (cstep S c0 o) as [cm|] eqn:E; [|discriminate].
+      apply (IH cm c1); auto; [eapply cstep_CInv; eauto|eapply cstep_NoCb; eauto]. }
+  specialize (G ops crun_init c (CInv_init S) eq_refl Hv Hs). apply app_eq_nil in G. exact G.
+Qed.
